@@ -292,6 +292,18 @@ Theorem C06_second_evaluate_all_changes_nothing :
 Proof. exact PropNotify.lazy_second_evalall_identity. Qed.
 Print Assumptions C06_second_evaluate_all_changes_nothing.
 
+(* ... and for the networks of C06_network_with_moves_one_pass no premise is left: after ANY such history an evaluateAll directly
+   following another one returns the very same world (coq/PropTgt.v: no user-held bindings there, so every registered binding updates a
+   property; registries hold live bindings only: coq/PropReg.v) *)
+Theorem C06_network_second_evaluate_all_changes_nothing :
+  forall fn rtl ev, ev <> 0 -> forall f ops e w1,
+    PropMoveLazy.lazy_run3_ok fn rtl f world0 ops ->
+    lookup (w_bevs (run fn rtl (S f) ops)) e = Some ev ->
+    step1 fn rtl (S f) (run fn rtl (S f) ops) (BevEvalAll e) = (w1, None) ->
+    step1 fn rtl (S f) w1 (BevEvalAll e) = (w1, None).
+Proof. exact PropNotify.lazy3_reachable_second_evalall_identity. Qed.
+Print Assumptions C06_network_second_evaluate_all_changes_nothing.
+
 (* non-vacuity: the chain of C06_premises_example after an assignment: the first evaluateAll changes both bound properties, the second
    one returns the very same world *)
 Example C06_second_evaluate_all_example :
